@@ -231,6 +231,7 @@ func RunRequest(t *testing.T, rq *Request) *ReqOutcome {
 			cache.Cache = gocache.New(5*time.Minute, 0)
 			w := NewWire(world)
 			w.Faults = rq.Faults
+			w.MaxVirtual = 40 * time.Minute
 			out.Wire = w
 			packets.SetVerifHooks(w.Hooks())
 			defer packets.SetVerifHooks(nil)
